@@ -29,13 +29,11 @@ Definition ideal_leaf (ne neg : bool) (d : ditem) : outcome str :=
 Fixpoint ideal_render (ne neg : bool) (c : ctree) {struct c} : outcome str :=
   match c with
   | CLeaf d => ideal_leaf ne neg d
-  | CNot a => obind (ideal_render ne true a)
-                    (fun s => let body := if is_leaf a then s else group s in
-                              Ok (if ne then body else s_not ++ body))
-  | CAnd l => obind (omap (fun a => obind (ideal_render ne neg a)
-                                          (fun s => Ok (if is_or a then group s else s))) l)
+  | CNot a => obind (ideal_render ne true a) (fun s => Ok (not_text ne a s))
+  | CAnd l => obind (omap (fun a => obind (ideal_render ne neg a) (fun s => Ok (wrap_and a s))) l)
                     (fun ss => Ok (join s_and ss))
-  | COr l => obind (omap (ideal_render ne neg) l) (fun ss => Ok (join s_or ss))
+  | COr l => obind (omap (fun a => obind (ideal_render ne neg a) (fun s => Ok (wrap_or a s))) l)
+                   (fun ss => Ok (join s_or ss))
   end.
 
 Definition ideal_cond (E : env) (ne : bool) (dets : list (str * list ditem)) (k : str) : outcome str :=
